@@ -14,10 +14,13 @@ CONSTANTS
   Quantum = 4
   MaxTime = 100000
   Rule = "sum"
+  Cfgs = {"A"}
+  InitCfg = "A"
+  RL = "safe"
   Off = {}
   Lim <- NoFaults
   HistLen = 36
   EarlyPost = FALSE
   Pace = 3
-INVARIANTS Emit AtLeastOnce NoDuplicateWhenHealthy SilenceSurvivesRestart NoRepeatAfterRestart ReadyEventually Sane
+INVARIANTS Emit AtLeastOnce NoDuplicateWhenHealthy SilenceSurvivesRestart NoRepeatAfterRestart ReadyEventually RoutedByConfigInForce StatusShowsConfigInForce ReceiversAgree Sane
 CHECK_DEADLOCK FALSE
